@@ -230,6 +230,41 @@ def extract(repo):
             j += 1
         j -= 1
     out["routerMask"] = rt[k - 3:j + 1]
+    # the two conditions under which a route from input `in_route` to output `out_route` is masked
+    a = rt.index("gen_inout_identical")
+    i0 = a
+    while rt[i0] != "if":
+        i0 -= 1
+    p1 = P(rt[i0 + 1:a - 2])
+    out["maskLoop"] = p1.expr()
+    b = rt.index("gen_xy_opt")
+    i1 = b
+    while rt[i1] != "if":
+        i1 -= 1
+    p2 = P(rt[i1 + 1:b - 2])
+    out["maskXY"] = p2.expr()
+    # parameter defaults of floo_router that the masks depend on
+    out["routerDefaults"] = []
+    for nm in ("XYRouteOpt", "NoLoopback"):
+        q = rt.index(nm)
+        out["routerDefaults"] += rt[q - 2:q + 3]
+    # every instantiation of floo_route_comp in the two chimneys
+    out["chimneyComp"] = []
+    for fn in ("floo_axi_chimney.sv", "floo_nw_chimney.sv"):
+        ct = toks_of(os.path.join(repo, "hw", fn))
+        for q in range(len(ct)):
+            if ct[q] == "floo_route_comp" and ct[q + 1] == "#":
+                j2 = q
+                depth = 0
+                while True:
+                    if ct[j2] in ("(", "'("):
+                        depth += 1
+                    elif ct[j2] == ")":
+                        depth -= 1
+                    elif ct[j2] == ";" and depth == 0:
+                        break
+                    j2 += 1
+                out["chimneyComp"].append([fn] + ct[q:j2 + 1])
     # floo_route_comp: destination lookup and source-route lookup
     lo, hi = find_labelled(comp, "gen_table_routing")
     out["compTable"] = comp[lo:hi]
@@ -342,6 +377,16 @@ def lean_file(repo, f):
             "\n".join(f"  | {ident(n)}" for n in ns) + "\n  deriving DecidableEq, Repr\n"
         body = "[\n" + ",\n".join(rs_lean(s, 4, ty) for s in f[name]) + "\n  ]"
         return enum, body
+    def eblock(names, ty, what):
+        ns = []
+        for nm in names:
+            for x in names_of([("assign", ("n", 0), f[nm])]):
+                if x not in ns:
+                    ns.append(x)
+        enum = f"/-- the names {what} mention -/\ninductive {ty} where\n" + \
+            "\n".join(f"  | {ident(n)}" for n in ns) + "\n  deriving DecidableEq, Repr\n"
+        return enum
+    mask_enum = eblock(["maskLoop", "maskXY"], "MaskName", "the masking conditions of floo_router")
     xy_enum, xy_body = block("xy", "XyName")
     src_enum, src_body = block("src", "SrcName")
     p = []
@@ -373,6 +418,13 @@ def rtlXy : List (RS XyName) := {xy_body}
 /-- floo_route_select, branch `gen_consumption`, block `proc_route_sel` -/
 def rtlSrc : List (RS SrcName) := {src_body}
 
+{mask_enum}
+/-- floo_router: a route from input `in_route` to output `out_route` is masked if it would loop back … -/
+def rtlMaskLoop : RE MaskName := {re_lean(f['maskLoop'], 'MaskName')}
+
+/-- … or, under XY routing, if it would turn from North/South to East/West -/
+def rtlMaskXY : RE MaskName := {re_lean(f['maskXY'], 'MaskName')}
+
 def rtlFacts : RtlFacts where
   xyRest := {toks_lean(f['xyRest'])}
   routeSelWidth := {toks_lean(flat(f['routeSelWidth']))}
@@ -383,6 +435,8 @@ def rtlFacts : RtlFacts where
   compCond := {toks_lean(f['compCond'])}
   compTable := {toks_lean(f['compTable'])}
   compRoute := {toks_lean(f['compRoute'])}
+  routerDefaults := {toks_lean(f['routerDefaults'])}
+  chimneyComp := [{', '.join(toks_lean(b, 6) for b in f['chimneyComp'])}]
 
 end FlooVerif.Gen
 """
